@@ -24,36 +24,48 @@ theorem oneByteGet_pads (k : Nat) (q : UInt8) : oneByteGet (rep k 0) q = .ok non
     rw [oneByteGet]
     simpa [rep] using ih
 
-/-- `GetIDs` of the one-byte view: the ids before the first reserved id -/
-theorem oneByteIDs_body (items : List Item) (k : Nat) (h : items.all Item.ok1 = true) :
-    oneByteIDs (body1 items ++ rep k 0) = (elems1 items).map (·.id) := by
+theorem oneByteIDs_stop (n : UInt8) (rest : Bytes) (k : Nat) (hn : n.toNat < 16) :
+    oneByteIDs (stopBytes (some (n, rest)) ++ rep k 0) = [] := by
+  obtain ⟨a, b⟩ := stop_table ⟨n.toNat, hn⟩
+  simp only at a b
+  simp only [stopBytes, List.cons_append]
+  rw [oneByteIDs]
+  simp only [a, b, Bool.false_eq_true, ↓reduceIte, beq_self_eq_true]
+
+/-- `GetIDs` of the one-byte view: the ids of the items, up to a tail in which the walk lists
+    nothing (alignment pads, or a reserved id and what follows it) -/
+theorem oneByteIDs_body (items : List Item) (tail : Bytes) (h : items.all Item.ok1 = true)
+    (ht : oneByteIDs tail = []) :
+    oneByteIDs (body1 items ++ tail) = (elems items).map (·.id) := by
   induction items with
-  | nil => simpa using oneByteIDs_pads k
+  | nil => simpa [elems] using ht
   | cons it r ih =>
     simp only [List.all_cons, Bool.and_eq_true] at h
     obtain ⟨hit, hr⟩ := h
     cases it with
     | pad =>
-      simp only [body1_pad, List.cons_append, elems1_pad]
+      simp only [body1_pad, List.cons_append, elems]
       rw [oneByteIDs]
       simpa using ih hr
     | elem id d =>
       simp only [Item.ok1, Bool.and_eq_true, decide_eq_true_eq, Bool.not_eq_true'] at hit
       obtain ⟨⟨⟨hid, h1⟩, h16⟩, hnz⟩ := hit
-      obtain ⟨fa, fb, fc⟩ := hdr1_facts id d hid h1 h16
-      simp only [body1_elem, List.cons_append, List.append_assoc]
+      obtain ⟨fa, fb, fc⟩ := hdr1_facts id d (by omega) h1 h16
+      simp only [body1_elem, List.cons_append, List.append_assoc, elems]
       rw [oneByteIDs]
-      simp only [fa, fb, fc, hnz, Bool.false_eq_true, ↓reduceIte]
-      rw [elems1_elem]
-      by_cases h15 : id == 15
-      · simp [h15]
-      · simp only [h15, Bool.false_eq_true, ↓reduceIte, List.drop_left, List.map_cons, ih hr]
+      have h15 : (id == 15) = false := by
+        rw [Bool.eq_false_iff]; intro hc; simp at hc; rw [hc] at hid; simp at hid
+      simp only [fa, fb, fc, hnz, h15, Bool.false_eq_true, ↓reduceIte, List.drop_left, List.map_cons, ih hr]
 
-/-- `Get` of the one-byte view walks every element (it does not stop at id 15): first match -/
-theorem oneByteGet_body (items : List Item) (k : Nat) (q : UInt8) (h : items.all Item.ok1 = true) :
-    oneByteGet (body1 items ++ rep k 0) q = .ok (((elems items).find? (·.id == q)).map (·.payload)) := by
+/-- `Get` of the one-byte view: the first item with that id; when there is none the walk goes on
+    into the tail (it does not stop at id 15) -/
+theorem oneByteGet_body (items : List Item) (tail : Bytes) (q : UInt8) (h : items.all Item.ok1 = true) :
+    oneByteGet (body1 items ++ tail) q =
+      match (elems items).find? (·.id == q) with
+      | some e => .ok (some e.payload)
+      | none => oneByteGet tail q := by
   induction items with
-  | nil => simpa [elems] using oneByteGet_pads k q
+  | nil => simp [elems]
   | cons it r ih =>
     simp only [List.all_cons, Bool.and_eq_true] at h
     obtain ⟨hit, hr⟩ := h
@@ -65,12 +77,12 @@ theorem oneByteGet_body (items : List Item) (k : Nat) (q : UInt8) (h : items.all
     | elem id d =>
       simp only [Item.ok1, Bool.and_eq_true, decide_eq_true_eq, Bool.not_eq_true'] at hit
       obtain ⟨⟨⟨hid, h1⟩, h16⟩, hnz⟩ := hit
-      obtain ⟨fa, fb, fc⟩ := hdr1_facts id d hid h1 h16
+      obtain ⟨fa, fb, fc⟩ := hdr1_facts id d (by omega) h1 h16
       simp only [body1_elem, List.cons_append, List.append_assoc, elems]
       rw [oneByteGet]
       simp only [fa, fb, fc, hnz, Bool.false_eq_true, ↓reduceIte]
       by_cases hq : id == q
-      ·        simp [hq]
+      · simp [hq]
       · simp only [hq, Bool.false_eq_true, ↓reduceIte, List.drop_left, ih hr, List.find?_cons]
 
 theorem twoByteIDs_pads (k : Nat) : twoByteIDs (rep k 0) = .ok [] := by
